@@ -232,6 +232,10 @@ def run_case(case):
         if case.get("fault") and i == 0:
             continue
         obs = scenario.run_scenario(build(case, only=i))
+        fz = common.frozen_violation(obs.world)
+        if fz:
+            # the server freezes even with this one session on it
+            return {"digest": obs.digest, "nontrivial": False, "vtime": obs.vtime, "events": obs.events, "steps": obs.steps, "outcome": obs.outcome, "counters": {"probe.spin_detected": 1}, "groups": {}, "violations": [fz]}
         if obs.outcome not in ("ok",):
             raise common.HarnessError(f"solo run failed: {obs.outcome}: {obs.error!r}")
         s = obs.sessions[f"s{i}"]
